@@ -26,6 +26,9 @@ class Head(packet.Packet):
 
     def post_dissection(self, pkt):
         ''' Verify that the version-specific part is present. '''
+        # Octets after the header belong to the first message
+        formats.remove_padding(self)
+
         if not self.payload:
             raise formats.VerifyError('Contact header without version-specific part')
         packet.Packet.post_dissection(self, pkt)
